@@ -16,14 +16,24 @@ MANIFEST = dict(
           "tree is in range for every insertion history and every query (insert_index_safe, query_index_safe, from C05), "
           "the empty tree is handled (empty_tree_no_read), the half-plane buffer of intersect_halfplanes is never "
           "indexed out of range and its assert never fires, for every list of half-planes "
-          "(halfplane_buffer_index_safe, from C15), the typed support kernels never see a non-contiguous array "
+          "(halfplane_buffer_index_safe, from C15), the write index n_points into the four-row simplex arrays of the "
+          "Jolt GJK kernels is < 4 in every reachable loop state, for every input "
+          "(jolt_simplex_index_safe_every_input for gjk_intersection_jolt, jolt_distance_simplex_index_safe_every_input "
+          "for gjk_distance_jolt, via jolt_gcp_set_lt: the solver's set bits are < 2^n on every input), and for runs whose "
+          "visited simplices are outside the C18 bands the whole next call performs no out-of-range access and returns "
+          "at most four points (jolt_simplex_index_safe, jolt_simplex_step_index_safe from the C02 loop invariant; "
+          "jolt_distance_simplex_index_safe, jolt_distance_step_index_safe from the C01 invariant), "
+          "gjk_intersection_libccd never indexes its simplex arrays out of range, no hypothesis "
+          "(libccd_step_index_safe, libccd_loop_index_safe, libccd_simplex_index_safe), the only variable row index of "
+          "the MPR kernels is 1, 2 or 3 (mpr_closest_row_index_safe), the typed support kernels never see a non-contiguous array "
           "for contiguous poses (typed_signatures_ok, from C14), constants read by the model equal the module constants "
           "(regenerated D3/Gen/Constants). "
           "Everything else is decided by a two-engine differential: the same call list (distance primitives, supports, "
           "AABBs, containment, GJK/EPA/MPR flavours, AABB-tree histories incl. empty trees, half-plane kernels, "
           "hydroelastic contact) is executed in two interpreter processes (JIT on as installed / NUMBA_DISABLE_JIT=1) "
           "and the serialised outputs are compared with the tolerances the property states."),
-    note=("the proof part covers index safety of the AABB-tree kernels and of the half-plane buffer only; numba's code "
+    note=("the proof part covers index safety of the AABB-tree kernels, of the half-plane buffer and of the GJK (Jolt, "
+          "libccd) / MPR simplex arrays only; numba's code "
           "generation itself is trusted "
           "to implement the documented semantics; the differential is sampling (labelled so in the evidence)"),
     technique="Lean 4 proof of semantic-gap obligations (index safety) + two-engine differential correspondence",
@@ -39,9 +49,22 @@ PARTIAL = {
     "numba_codegen": "numba's code generation is not verified; only the obligations that make its documented "
                      "deviations unobservable are (AABB tree index safety for every history and query, typed "
                      "signatures of the collider support kernels, the empty-tree reads)",
-    "other_kernels_index_safety": "index safety of the EPA face/edge arrays and simplex arrays is covered by the owning "
-                                  "properties' models (checked reads) and by the differential only (the half-plane "
-                                  "buffer is proved: halfplane_buffer_index_safe, after the repair F-C15-halfplane-buffer)",
+    "other_kernels_index_safety": "proved in D3/Properties/C20.lean: the half-plane buffer (halfplane_buffer_index_safe, "
+                                  "after the repair F-C15-halfplane-buffer); the simplex arrays Y / Y,P,Q of the Jolt GJK "
+                                  "kernels: n_points < 4 at every store in every reachable loop state, for every input "
+                                  "(jolt_simplex_index_safe_every_input, jolt_distance_simplex_index_safe_every_input); that "
+                                  "every checked access of the whole next call succeeds and the returned count is <= 4 "
+                                  "(jolt_simplex_step_index_safe, jolt_distance_step_index_safe) only for runs whose visited "
+                                  "simplices are all outside the C18 bands (VisitedGood JoltGood, the hypothesis of C01/C02; "
+                                  "inside the bands the call may raise ZeroDivisionError, which is C18's finding, not an "
+                                  "index error); the libccd simplex (libccd_simplex_index_safe: no IndexError for any input, "
+                                  "n_points stays in 1..3, unconditional); the one variable row index of mpr.py "
+                                  "(mpr_closest_row_index_safe; all other MPR and libccd kernel indices are literals 0..3 "
+                                  "into four-row arrays). Not proved: the Nesterov-accelerated GJK (no index-safety "
+                                  "theorem) and any kernel without a model — these are covered by the differential only. "
+                                  "epa.py and gjk/_gjk_original.py contain no numba-compiled code (both engines interpret "
+                                  "them), so their face / loose-edge / vertex-cache arrays carry no C20 obligation; their "
+                                  "capacity guards belong to C07/C19",
 }
 ASSUMPTIONS = ["numba implements its documented semantics (negative-index wraparound, no bounds checks, assert supported)",
                "both engines run the same numpy/BLAS build"]
